@@ -1170,7 +1170,7 @@ func c16IssuerCRLPaths(ref string) []string {
 }
 
 // c16DefaultCRLPaths: the endpoints that serve the default issuer's complete CRL.
-var c16DefaultCRLPaths = []string{"crl", "crl/pem", "cert/crl", "cert/crl/raw", "cert/crl/raw/pem", "issuer/default/crl/der", "issuer/default/crl/pem", "issuer/default/crl"}
+var c16DefaultCRLPaths = []string{"crl", "crl/pem", "cert/crl", "issuer/default/crl/der", "issuer/default/crl/pem", "issuer/default/crl"}
 
 type c16Status struct {
 	found bool
